@@ -153,7 +153,7 @@ def check_pdm(ctx, case):
         _check_pdm(ctx, case)
 
 
-def _check_pdm(ctx, case, ndm_node_limit=60):
+def _check_pdm(ctx, case, ndm_node_limit=60, count=True):
     import dendropy
     from dendropy.calculate import phylogeneticdistance, treemeasure
     from dendropy.utility.error import NullAssemblageException
@@ -347,7 +347,7 @@ def _check_pdm(ctx, case, ndm_node_limit=60):
         ctx.check(eq(got, path[(a, b)][0]), "treemeasure_patristic_distance_is_path_sum", "C14.treemeasure.patristic_distance",
                   lambda: "%s-%s got %r want %r; %s" % (lab[a], lab[b], got, path[(a, b)][0], tag))
 
-    if shape_is_nontrivial(pre):
+    if count and shape_is_nontrivial(pre):
         ctx.nontrivial(["pdm", case])
     ctx.cls("pdm:lenpat:" + case["lenpat"])
     ctx.cls("pdm:leaves:%s" % ("2-4" if n <= 4 else "5-8" if n <= 8 else "9-12" if n <= 12 else ">12"))
@@ -876,7 +876,7 @@ def _check_exh(ctx, item):
     n = item["n"]
     case = {"spec": spec, "lenpat": item["lens"], "rooted": item["rooted"], "hist": None, "store_edges": item["unif"] is None,
             "subsets": [], "tm_pairs": [[0, n - 1]], "via_class": False}
-    _check_pdm(ctx, case)
+    _check_pdm(ctx, case, count=False)
     # all non-empty subsets x three query forms; current encoding first, then a never-encoded tree with refresh
     for fresh in (False, True):
         n_, ns, taxa, bits, tree, cur = build(case, item["rooted"])
